@@ -77,7 +77,7 @@ PLAN["C03"] = {
 PLAN["C01"] = {
     "level": "proof",
     "technique": "Verus contracts on the real not_inplace/and_inplace/or_inplace/xor_inplace/num_vars_mask (all n < 64, all table lengths; word- and assignment-level lemmas) + Kani contract triples on the same kernels per length and on every syntactic operator form of Lut/LutN per size, against the Boolean operation on words and on a symbolic assignment",
-    "level_text": "NOT, AND, OR, XOR kernels are proved for every table length by Verus (word-level postconditions; lemma_logic_bits / lemma_not_bits give the assignment-level statement, lemma_logic_wf the invariant); the same kernels are also proved per table length 1..256 by Kani, and all 28 syntactic forms (named, in-place, 4 operator-trait forms, 2 compound-assignment forms; NOT: 4 forms) are proved per type LutN N=0..12 and Lut n=0..14 by fully unwound Kani triples: forms agree, result == word-wise and assignment-wise Boolean operation, operands unchanged, result well-formed with n variables.",
+    "level_text": "NOT, AND, OR, XOR kernels are proved for every table length by Verus (word-level postconditions; lemma_logic_bits / lemma_not_bits give the assignment-level statement, lemma_logic_wf the invariant); the same kernels are also proved per table length 1..256 by Kani, and all 28 syntactic forms (named, in-place, 4 operator-trait forms, 2 compound-assignment forms; NOT: 4 forms) are proved per type LutN N=0..12 and Lut n=0..12 (NOT to 14) by fully unwound Kani triples: forms agree, result == word-wise and assignment-wise Boolean operation, operands unchanged, result well-formed with n variables.",
     "level_note": "Trusted: Verus/Z3/vstd, Kani/CBMC, rustc, extraction rules of DESIGN 2.3 (rule 6: `*t1 OP= t2` with t2: &u64 is rewritten to `*t1 OP= *t2`, i.e. std's forwarding impl `OPAssign<&u64> for u64` is trusted).",
     "verus_units": ["kernels", "logic"],
     "kani_units": ["spec_ops.rs", "c01_logic.rs"],
@@ -95,10 +95,10 @@ PLAN["C01"] = {
         "num_vars_mask": {"filters": ["c01q_k_not", "c01t_k_not"], "complete": True},
     },
     "assumptions": _VERUS_ASSUMED + [
-        "Kani triples fix the size per harness: LutN 0..12, Lut 0..14, kernel lengths 1..256 (the property's range)",
+        "Kani triples fix the size per harness: LutN 0..12, Lut 0..12 for the binary operator forms (13, 14: NOT forms only - one 128-word triple with all eight binary forms needs > 22 GB in CBMC, measured), kernel lengths 1..256; the kernels themselves are proved for every length by Verus and the wrappers forward (n, table) identically for every n",
         "size-mismatch behaviour of the binary forms is decided under C17",
     ],
-    "scope_note": "Verus: not/and/or/xor_inplace unbounded. Kani: complete per size for LutN 0..12, Lut 0..14, kernel lengths 1,2,4,...,256.",
+    "scope_note": "Verus: not/and/or/xor_inplace unbounded. Kani: complete per size for LutN 0..12, Lut 0..12 (NOT to 14), kernel lengths 1,2,4,...,256.",
 }
 
 
